@@ -398,7 +398,7 @@ def run(ctx, name, kind, **kw):
                 elif step and locals().get("force_secret_next"):
                     op, force_secret_next = "secret", False
                 else:
-                    op = rng.choice(("set_curve", "set_curve", "load_priv", "load_priv_der", "load_pub", "load_pub_der", "load_pub_bytes", "load_priv_bytes", "generate", "secret", "secret"))
+                    op = rng.choice(("load_pub_bad", "load_priv_bad", "set_curve", "set_curve", "load_priv", "load_priv_der", "load_pub", "load_pub_der", "load_pub_bytes", "load_priv_bytes", "generate", "secret", "secret"))
                 last_was_secret = op == "secret"
                 cn = rng.choice((c1.name, c1.name, c2.name))
                 c = lib.BY_NAME[cn]
@@ -455,6 +455,27 @@ def run(ctx, name, kind, **kw):
                         sk, d = keys[m_curve]
                         e.load_private_key_bytes(sk.to_string())
                         m_priv = (m_curve, d)
+                    elif op in ("load_pub_bad", "load_priv_bad"):
+                        # a load that FAILS (malformed remote point / truncated private key): the object keeps what it had
+                        if m_curve is None:
+                            continue
+                        cm = lib.BY_NAME[m_curve]
+                        dm = doms[m_curve]
+                        ctx.case("history", key="step|%s" % op)
+                        try:
+                            if op == "load_pub_bad":
+                                Qb = rem[m_curve][1]
+                                blob = b"\x04" + Qb[0].to_bytes(dm.pbytes(), "big") + ((Qb[1] + 1) % dm.p).to_bytes(dm.pbytes(), "big")
+                                if rng.random() < 0.5:
+                                    e.load_received_public_key_bytes(blob)
+                                else:
+                                    e.load_received_public_key_der(R.spki(tuple(cm.oid), blob))
+                            else:
+                                good = bytes(keys[m_curve][0].to_der())
+                                e.load_private_key_der(good[: len(good) - rng.randrange(1, 6)])
+                            ctx.violation("malformed_key_accepted_in_history", "history %s: %s was accepted" % (shape, op), dict(shape=shape))
+                        except (MalformedPointError, der.UnexpectedDER, UnknownCurveError):
+                            pass
                     elif op == "generate":
                         if m_curve is None:
                             try:
